@@ -3,8 +3,10 @@ REG = dict(
     harnesses=["corr_C07"],
     timeout=dict(quick=900, thorough=7200),
     trusted_base=[
-        "|cdf(ppf(q)) - q| <= 1e-5 is a numerical fact, NOT a theorem: theorem bisect_accuracy yields it from monotonicity and a "
-        "Lipschitz constant of the cdf, which depend on C06's numerics; it is measured on every run with the code's own cdf",
+        "|cdf(ppf(q)) - q| <= 1e-5 is a THEOREM in exact real arithmetic for even c (all regimes except the point mass: "
+        "cdf_ppf_even_all_regimes_partial: the even-c model cdf is the Gaussian mixture, monotone, k/(b-a)-Lipschitz, tails <= Phi(-6) "
+        "<= exp(-18)); for odd c in the series regime it stays a numerical fact (bisect_accuracy is conditional on monotonicity and "
+        "a Lipschitz constant of the piecewise-polynomial cdf) and under IEEE rounding it is measured on every run with the code's own cdf",
         "scipy.special.erfinv (normal regime) is a black box: the model inverts its own erf/erfc by bisection and is compared to "
         "1e-8*(b-a+12o); normal_ppf(0) = -inf, normal_ppf(1) = +inf are compared, not proved",
         "IEEE-754 rounding is not modelled: a bisection decision cdf(mid) < q may flip between libm's when |cdf(mid)-q| is inside "
@@ -22,10 +24,13 @@ TEXT = dict(
     level="Universal Lean theorems about the polymorphic Opda.Noisy.ppf the driver runs at Float: its bisection is literally "
           "Bisect.run, so the result is non-decreasing in q for an ARBITRARY cdf (no monotonicity of the float cdf assumed), also "
           "across the explicit -inf/+inf end values; bracket invariant a-6o <= lo <= result <= hi <= b+6o with width "
-          "(b-a+12o)/2^30; conditional accuracy for a monotone L-Lipschitz cdf; the end-point decision table (point mass constant, "
+          "(b-a+12o)/2^30; conditional accuracy for a monotone L-Lipschitz cdf and, UNCONDITIONALLY for even c over R (series, normal and "
+          "noiseless regimes), |cdf(ppf q) - q| <= 1e-5 (the even-c model cdf is the Gaussian mixture: monotone, c/(2(b-a))-Lipschitz, "
+          "Chernoff tail bound Phi(-6) <= exp(-18) proved from the Gaussian mgf); the end-point decision table (point mass constant, "
           "-inf/+inf in the series regime, a/b and the closed form in the noiseless regime incl. o=0, mean+sd*Phi^-1 in the normal "
           "regime, the o==0 clip branch unreachable); over R the noiseless closed forms are exact inverses, cdf(ppf q) = q. Tied to the code on every run to 1e-8(b-a+12o), exact at q in {0,1}; the "
           "inverse clause, monotonicity and shapes are evaluated on the implementation every run.",
-    note="The 1e-5 inversion accuracy is conditional on a Lipschitz constant of the real cdf (C06 numerics) and is measured, not "
-         "proved; erfinv is a compared black box; near-tie bisection decisions are skipped and counted.",
+    note="The 1e-5 inversion accuracy is a theorem for even c in exact arithmetic; for odd c (series regime) it is conditional on a "
+         "Lipschitz constant of the piecewise-polynomial cdf and is measured, not proved; IEEE rounding is measured; erfinv is a "
+         "compared black box; near-tie bisection decisions are skipped and counted.",
 )
